@@ -127,9 +127,11 @@ def do_check(mod, pid, modname, seed, args):
             step = max(1, n // k)
             sample = list(range(0, n, step))[:k]
             mism = 0
+            mism_idx = []
             for res in pool.map_indices(sample, chunk=1, solo=True):
                 if "harness_error" in res or agg.digests.get(res["index"]) != res["digest"]:
                     mism += 1
+                    mism_idx.append((res.get("index"), res.get("harness_error", "digest differs")))
             if mism and batch > 1 and not solo_pass:
                 # runs sharing a child influenced each other: the tree under test keeps process-global state that the
                 # batching assumption does not know.  Fall back to one pristine child per run and judge on that.
@@ -138,7 +140,7 @@ def do_check(mod, pid, modname, seed, args):
                 solo_pass = True
                 continue
             if mism:
-                print(f"HARNESS-ERROR property={pid}: {mism} determinism mismatches")
+                print(f"HARNESS-ERROR property={pid}: {mism} determinism mismatches (run indices {mism_idx[:5]})")
                 return 2
             break
         agg.determinism_rechecks = len(sample)
